@@ -37,6 +37,7 @@ struct EncCase
     uint8_t overload{0};  // which encode entry point: 0 vector<Packet> iterators, 1 vector<shared_ptr<Packet>> iterators,
                           // 2 forward_list<Packet> iterators (plain forward iterators), 3 single-packet overload (batches of one)
     int32_t abortAfter{-1};  // history calls only (C10): >= 0: the caller's iterator throws at packet (abortAfter % size)
+    uint8_t reuseObjects{0};  // 1: the earlier calls and the call under test encode from the same Packet objects, refilled in place
 
     void io(Ar& a)
     {
@@ -49,6 +50,7 @@ struct EncCase
         a.optionalVec("prior", prior);
         a.optionalNum("overload", overload);
         a.optionalNum("abortAfter", abortAfter);
+        a.optionalNum("reuseObjects", reuseObjects);
     }
 };
 
@@ -312,6 +314,37 @@ inline void runPriorCalls(lib::Encoder& enc, const EncCase& c)
     }
 }
 
+// Runs the earlier calls and returns the batch for the call under test.  With reuseObjects all calls encode from one pool of
+// Packet objects whose storage is reserved once (a sender that keeps and refills its packet objects): the packets of the call
+// under test then sit at the addresses the earlier calls' packets had.
+inline std::vector<lib::Packet> priorCallsThenBatch(lib::Encoder& enc, const EncCase& c)
+{
+    if (!c.reuseObjects)
+    {
+        runPriorCalls(enc, c);
+        return buildBatch(c);
+    }
+    std::vector<lib::Packet> pool;
+    size_t cap = c.packets.size();
+    for (const auto& call : c.prior)
+        cap = std::max(cap, call.packets.size());
+    pool.reserve(cap + 1);
+    for (const auto& call : c.prior)
+    {
+        pool.resize(call.packets.size());
+        for (size_t i = 0; i < call.packets.size(); ++i)
+            fillPacket(pool[i], call.packets[i], call.version);
+        if (call.abortAfter >= 0)
+            encodeAborted(enc, pool, lib::DataContext{call.minB, call.maxB}, call.abortAfter);
+        else
+            encodeVia(enc, pool, lib::DataContext{call.minB, call.maxB}, static_cast<uint8_t>(c.overload + 1 + pool.size()));
+    }
+    pool.resize(c.packets.size());
+    for (size_t i = 0; i < c.packets.size(); ++i)
+        fillPacket(pool[i], c.packets[i], c.version);
+    return pool;  // moved: the storage, and with it every address, stays
+}
+
 // adds 0..3 earlier calls (other configurations, versions, message types) to half of the cases
 inline rc::Gen<EncCase> withPriorCalls(rc::Gen<EncCase> base, const EncGenParams& params)
 {
@@ -324,6 +357,7 @@ inline rc::Gen<EncCase> withPriorCalls(rc::Gen<EncCase> base, const EncGenParams
         p.maxBatch = 4;
         p.frameBudget = 2000;
         p.allowEmpty = true;
+        c.reuseObjects = *range<uint8_t>(0, 1);
         int n = *range<int>(1, 3);
         for (int i = 0; i < n; ++i)
         {
